@@ -1703,6 +1703,53 @@ def k_protected(repo):
             fail("%s: arity of mprotect" % fn)
         out += len_def(nm + "_len", a[1])
         out += "def %s_prot : List String := [%s]\n\n" % (nm, ", ".join('"%s"' % f for f in sorted(flags(a[2]))))
+    # the ADDRESS handed to every system call (the start of the slice the wrapper was given, nothing else) and the empty-slice guard
+    addr_rows, guard_rows = [], []
+    for fn, callee in (("dryoc_mlock", "c_mlock"), ("dryoc_mlock", "libc::munlock"), ("dryoc_munlock", "c_munlock"), ("dryoc_mprotect_readonly", "c_mprotect"),
+                       ("dryoc_mprotect_readwrite", "c_mprotect"), ("dryoc_mprotect_noaccess", "c_mprotect")):
+        a = call_args(fn, callee)
+        addr_rows.append(("%s/%s" % (fn, callee.split("::")[-1]), norm_text(a[0])))
+    for fn in ("dryoc_mlock", "dryoc_munlock", "dryoc_mprotect_readonly", "dryoc_mprotect_readwrite", "dryoc_mprotect_noaccess"):
+        _, _, wb = find_fn(src, fn)
+        tkz = [t for t in lex(wb) if t[0] != "eof"]
+        want = [t for t in lex("{ if data.is_empty() { return Ok(()); }") if t[0] != "eof"]
+        guard_rows.append((fn, tkz[:len(want)] == want))
+    out += "def syscall_addr_args : List (String × String) := [%s]\n\n" % ", ".join('("%s", "%s")' % r for r in addr_rows)
+    out += "def empty_slice_guards : List (String × Bool) := [%s]\n\n" % ", ".join('("%s", %s)' % (n, "true" if v else "false") for n, v in guard_rows)
+    # the five type-state transitions: which wrapper is called on which slice, that its failure returns (`?`) BEFORE the record is
+    # updated, and which field of the runtime record is set to what
+    trows = []
+    for meth, wrapper in (("munlock", "dryoc_munlock"), ("mlock", "dryoc_mlock"), ("mprotect_readonly", "dryoc_mprotect_readonly"),
+                          ("mprotect_readwrite", "dryoc_mprotect_readwrite"), ("mprotect_noaccess", "dryoc_mprotect_noaccess")):
+        found = None
+        for m_ in re.finditer(r"fn\s+%s\s*\(\s*mut\s+self\s*,?\s*\)" % meth, src):
+            j0 = src.index("{", m_.end())
+            body_t = src[j0:match_bracket(src, j0, "{", "}") + 1]
+            if "swap_some_or_err" in body_t:
+                found = body_t
+                break
+        if found is None:
+            fail("transition %s: no `fn %s(mut self)` going through swap_some_or_err" % (meth, meth))
+        canon = re.compile(r"^\{\s*self\s*\.\s*swap_some_or_err\s*\(\s*\|\s*old\s*\|\s*\{\s*%s\s*\(\s*(old\.a\.as_slice\(\))\s*\)\s*\?\s*;\s*old\s*\.\s*(lm|pm)\s*=\s*int\s*::\s*(LockMode|ProtectMode)\s*::\s*(\w+)\s*;\s*Ok\s*\(\s*Protected\s*::\s*<([^>]*)>\s*::\s*new\s*\(\s*\)\s*\)\s*\}\s*\)\s*\}$" % wrapper, re.S)
+        mm = canon.match(re.sub(r"//[^\n]*", "", found).strip())
+        if not mm:
+            fail("transition %s: body is not `swap_some_or_err(|old| { %s(old.a.as_slice())?; old.<field> = …; Ok(Protected::<…>::new()) })`" % (meth, wrapper))
+        trows.append((meth, wrapper, mm.group(1), mm.group(2), mm.group(4), " ".join(mm.group(5).split())))
+    out += "def transitions : List (String × String × String × String × String × String) := [%s]\n\n" % ", ".join('("%s", "%s", "%s", "%s", "%s", "%s")' % r for r in trows)
+    # Zeroize for Protected (= the drop path): make writable if the RECORD says it is not, wipe, unlock if the RECORD says locked — in
+    # this order, all under "the region is not empty"; Drop calls exactly this
+    zm = re.search(r"impl<[^>]*>\s*Zeroize\s+for\s+Protected<A,\s*PM,\s*LM>\s*\{", src)
+    if not zm:
+        fail("impl Zeroize for Protected<A, PM, LM> not found")
+    zb = src[zm.end() - 1:match_bracket(src, zm.end() - 1, "{", "}") + 1]
+    zb = re.sub(r"//[^\n]*", "", zb)
+    zb = re.sub(r"\.map_err\(\|err\|\s*eprintln!\([^;]*?\)\)\s*\.ok\(\)", ".ok()", zb, flags=re.S)
+    zcanon = ("{ fn zeroize(&mut self) { if let Some(d) = &mut self.i { if !d.a.as_slice().is_empty() { if d.pm != int::ProtectMode::ReadWrite { "
+              "dryoc_mprotect_readwrite(d.a.as_slice()).ok(); } d.a.zeroize(); if d.lm == int::LockMode::Locked { dryoc_munlock(d.a.as_slice()).ok(); } } } } }")
+    tkz2 = lambda t: [x for x in lex(t) if x[0] != "eof"]
+    out += "def zeroize_body_is_canonical : Bool := %s\n\n" % ("true" if tkz2(zb) == tkz2(zcanon) else "false")
+    dm = re.search(r"fn\s+drop\s*\(\s*&mut\s+self\s*\)\s*\{\s*self\s*\.\s*zeroize\s*\(\s*\)\s*;?\s*\}", src)
+    out += "def drop_is_zeroize : Bool := %s\n\n" % ("true" if dm else "false")
     # deallocate: which bytes are wiped, and that the wipe precedes the release
     _, _, dbody = find_fn(src, "deallocate")
     m = re.search(r"let\s+region\s*=\s*std::slice::from_raw_parts_mut\(", dbody)
